@@ -9,7 +9,8 @@ EXPLANATION = ("Coroutine-witness analysis: rustc's coroutine layout gives, for 
                "transitively through every awaited future) must not be a freshly created branch of a `select!` inside a loop, "
                "because the losing branch is dropped each iteration and the bytes it consumed are lost. Every select site, "
                "every branch, and every await of a progress-carrying future in both crates is enumerated with its cancellation "
-               "context; the EOF classification (ImmediateFin iff nothing read) is checked as a decision table.")
+               "context; the EOF classification (ImmediateFin iff nothing read) is checked as a decision table."
+               ' Also (C05-R6/R7): buffered readers commit the child reader only when a frame was returned; the adapter that feeds control-plane bytes to the parsers reports exactly the bytes quinn filled.')
 NOT_DECIDED = ["the outcome under one concrete packetisation (needs the running driver)", "quinn's own reassembly"]
 TRUSTED = ["rustc coroutine layout (mir state transform)", "reviewed leaf-future table in engine/corowit.py", "tokio::select! drops losing branch futures"]
 
